@@ -21,6 +21,11 @@ Command loops of `drv_c02` (core Lean only):
         addss2|addsd2 <k> <out>                   (cvtsi2ss/sd of the signed k, added to itself: the datum of 2·round(k))
         fstfld32|fstfld64 <x> <out>               (flds/fldl then fstps/fstpl, any control word: the same bits, unless NaN)
         the integer → floating contracts (cvtsi2s*, fild*) are also compared bit for bit with `Ieee.ofInt32/64/80`
+  drv_c02 chainval   `<t0> <value, decimal, possibly negative> <t1> … <tn>`   → `int <v>` | `ub` | `fp` | `bad`
+        Spec.FpC11.convertChain (the right-hand side of C02_cast_chain) evaluated on the toy FPU of Lemmas/FpToy.lean, which meets every
+        contract of FpuSpec: the C11 value of `(Tn)…(T1)x` for an integer `x : t0`.  Meaningful (the same on every FPU that meets
+        the contract) when no link narrows a floating type (the contract says nothing about the value of a narrowing); `fp`: the
+        final type is floating (toy data are not IEEE bit patterns, so they are not printed)
   drv_c02 lit        `<byte at *end> <bytes of the token after end>`       → `float|double|ldouble strtof|strtod|strtold` | `invalid`
         Model/FpLiteral.convertPpNumberFp over the regenerated suffix ladder: type and the libc function whose result is kept
 -/
@@ -28,6 +33,8 @@ import ChibiVerif.Spec.FpuSpec
 import ChibiVerif.Model.FpCodegen
 import ChibiVerif.Model.FpLiteral
 import ChibiVerif.Model.FpChain
+import ChibiVerif.Spec.FpChainSpec
+import ChibiVerif.Lemmas.FpToy
 
 namespace ChibiVerif.Driver.Fp
 open ChibiVerif.Gen.CommonType ChibiVerif.FpCodegen ChibiVerif.Asm ChibiVerif.Spec.Fpu
@@ -202,6 +209,28 @@ def contractLine (line : String) : String :=
     | _, _ => "unknown"
   | [] => "unknown"
 
+/-! ### the value of a chain of conversions (Spec/FpChainSpec) on the toy FPU -/
+
+open ChibiVerif.Spec.FpC11 ChibiVerif.Spec.IntSpec in
+def atyOf? : String → Option ATy
+  | "bool" => some (.int .bool) | "i8" => some (.int .i8) | "i16" => some (.int .i16) | "i32" => some (.int .i32)
+  | "i64" => some (.int .i64) | "u8" => some (.int .u8) | "u16" => some (.int .u16) | "u32" => some (.int .u32)
+  | "u64" => some (.int .u64) | "f32" => some .f32 | "f64" => some .f64 | "f80" => some .f80
+  | _ => none
+
+open ChibiVerif.Spec.FpC11 in
+def chainvalLine (line : String) : String :=
+  match words line with
+  | t0 :: v :: rest =>
+    match atyOf? t0, v.toInt?, rest.mapM atyOf? with
+    | some (.int _), some n, some ts =>
+      match convertChain Toy.toy 0x37f#16 ts (.int n) with
+      | some (.int r) => s!"int {r}"
+      | some _ => "fp"
+      | none => "ub"
+    | _, _, _ => "bad"
+  | _ => "bad"
+
 partial def loop (h : IO.FS.Stream) (f : String → String) : IO UInt32 := do
   let line ← h.getLine
   if line.isEmpty then return 0
@@ -216,8 +245,9 @@ def main (args : List String) : IO UInt32 := do
   | "ctype" :: _ => loop stdin ctypeLine
   | "contract" :: _ => loop stdin contractLine
   | "lit" :: _ => loop stdin litLine
+  | "chainval" :: _ => loop stdin chainvalLine
   | _ =>
-    IO.eprintln "usage: drv_c02 seq|ctype|contract|lit"
+    IO.eprintln "usage: drv_c02 seq|ctype|contract|lit|chainval"
     return 2
 
 end ChibiVerif.Driver.Fp
